@@ -91,6 +91,17 @@ Theorem C03_model_is_transcription_of_code : forall (V : Type) (a b : outcome V)
   combine2_gen V a b = combine2 a b.
 Proof. exact combine2_gen_eq. Qed.
 
+(* ... and the module-level functions: the transcriptions of result.combine and
+   result.unwrapped_combine (with the predicates they call) never fail on the inputs the
+   functions are specified for, and return what the model returns. *)
+Theorem C03_combine_is_transcription_of_code : forall (V : Type) (xs : list (outcome V)),
+  combine_gen V xs = Some (combine xs).
+Proof. exact combine_gen_eq. Qed.
+
+Theorem C03_unwrapped_is_transcription_of_code : forall (V : Type) (us : list (uoutcome V)),
+  forallb uraw_b us = true -> unwrapped_combine_gen V us = Some (unwrapped_combine us).
+Proof. exact unwrapped_combine_gen_eq. Qed.
+
 (* non-vacuity: a mixed raw sequence meets the hypotheses, and the theorems say
    something definite about it *)
 Example C03_nonvacuous :
@@ -111,3 +122,5 @@ Print Assumptions C03_skip_member.
 Print Assumptions C03_ok_only_if_no_error.
 Print Assumptions C03_unwrapped.
 Print Assumptions C03_model_is_transcription_of_code.
+Print Assumptions C03_combine_is_transcription_of_code.
+Print Assumptions C03_unwrapped_is_transcription_of_code.
